@@ -21,10 +21,12 @@ def IV(x):
 
 
 # exception kinds
-NONE, GENEXIT, UEXC, UBASE, EMPTY, UEMPTY = 0, 1, 2, 3, 4, 5
+NONE, GENEXIT, UEXC, UBASE, EMPTY, UEMPTY, STOPITER = 0, 1, 2, 3, 4, 5, 6
 # UEMPTY: the *user's* code (source iterator / mapped function) raises queue.Empty itself - "raises anything" includes the
 # library exception types that the function under analysis catches for its own purposes
-KNAME = {GENEXIT: 'GeneratorExit', UEXC: 'UserException', UBASE: 'UserBaseException', EMPTY: 'queue.Empty', UEMPTY: 'UserQueueEmpty'}
+# STOPITER: StopIteration out of an explicit next(<source iterator>) (the implicit one of a for loop never surfaces)
+KNAME = {GENEXIT: 'GeneratorExit', UEXC: 'UserException', UBASE: 'UserBaseException', EMPTY: 'queue.Empty', UEMPTY: 'UserQueueEmpty',
+         STOPITER: 'StopIteration'}
 USER_KINDS = (UEXC, UBASE, UEMPTY)
 SENT = -2           # token for `object()`
 NOITEM = -1
@@ -45,14 +47,49 @@ def matches(exc_type_src, kind):
     if t is None or t == 'BaseException':
         return True
     if t == 'Exception':
-        return kind in (UEXC, EMPTY, UEMPTY)
+        return kind in (UEXC, EMPTY, UEMPTY, STOPITER)
+    if t == 'StopIteration':
+        return kind == STOPITER
     if t == 'GeneratorExit':
         return kind == GENEXIT
-    if t in ('queue.Empty', 'Empty'):
+    if t in ('queue.Empty', 'Empty', '_queue.Empty'):
         return kind in (EMPTY, UEMPTY)
     if t.startswith('(') and t.endswith(')'):
         return any(matches(x.strip(), kind) for x in t[1:-1].split(',') if x.strip())
     raise Unsupported('except ' + t)
+
+
+NOOP_ROOTS = ('LOG', 'LOGGER', 'logger', 'log', '_logger', '_LOG', 'logging', 'warnings')
+NOOP_CALLS = ('print', 'time.sleep', 'gc.collect')
+
+
+def is_noop_call(e):
+    """logging / printing / sleeping: stubs with empty bodies (formatting and wall-clock time are not part of any property here; a
+    sleep only changes which schedule the OS picks, and every schedule is explored anyway)"""
+    if not isinstance(e, ast.Call):
+        return False
+    f = e.func
+    if ast.unparse(f) in NOOP_CALLS:
+        return True
+    root = f
+    while isinstance(root, ast.Attribute):
+        root = root.value
+    return isinstance(f, ast.Attribute) and isinstance(root, ast.Name) and root.id in NOOP_ROOTS
+
+
+def const_kw(e, name, pos=None, default=None):
+    """value of a constant keyword / positional argument of a call, `default` if absent; Unsupported if not a constant"""
+    v = None
+    for kw in e.keywords:
+        if kw.arg == name:
+            v = kw.value
+    if v is None and pos is not None and len(e.args) > pos:
+        v = e.args[pos]
+    if v is None:
+        return default
+    if not isinstance(v, ast.Constant):
+        raise Unsupported(f'non-constant {name}= in ' + ast.unparse(e)[:60])
+    return v.value
 
 
 class Edge:
@@ -70,6 +107,8 @@ class Prog:
         self.vars = {}          # name -> ('bool'|'int', init)
         self.queues = {}        # name -> (ctor source, capacity expr or None)
         self.threads = {}       # thread object name -> function name
+        self.excvars = set()    # names that hold a stored exception (sys.exc_info(), `except ... as e`, copies): value = exception kind
+        self.sources = set()    # names bound to iter(<source>)
         self.desc = {}
 
     def newloc(self, thread, desc=''):
@@ -118,6 +157,23 @@ class Compiler:
     def name(self, n):
         return self.subst.get(n, n)
 
+    def is_source(self, n):
+        n = self.name(n)
+        return self.params.get(n) == 'source' or n in self.p.sources
+
+    def next_source(self, tgt, k_item, k_stop, ctx, L, label='next'):
+        """one next() on the source iterator: an item (bound to tgt), exhaustion (continues at k_stop), or the failure chosen by the solver"""
+        p, t = self.p, self.t
+        here = p.newloc(t, f'{label}@{L}')
+        self.declare(tgt, 'int', NOITEM)
+        p.edge(t, here, k_item, guard=lambda S: z3.And(S['$pulled'] != S['$fail_at'], S['$pulled'] < S['$n']),
+               upd=lambda S: {tgt: S['$pulled'], '$pulled': S['$pulled'] + 1}, label='next-item', line=L)
+        p.edge(t, here, k_stop, guard=lambda S: z3.And(S['$pulled'] != S['$fail_at'], S['$pulled'] >= S['$n']), label='next-stop', line=L)
+        for kind in USER_KINDS:
+            p.edge(t, here, ctx.k_raise(kind), guard=lambda S, kind=kind: z3.And(S['$pulled'] == S['$fail_at'], S['$fail_kind'] == kind),
+                   upd=lambda S, kind=kind: {'$raised': IV(kind), '$src_failed': z3.BoolVal(True)}, label=f'next-raise-{KNAME[kind]}', line=L)
+        return here
+
     def ev(self, e, S):
         if isinstance(e, ast.Constant):
             if e.value is None:
@@ -164,6 +220,8 @@ class Compiler:
                 return a > b
             if isinstance(op, ast.GtE):
                 return a >= b
+        if isinstance(e, ast.IfExp):
+            return z3.If(self.ev(e.test, S), self.ev(e.body, S), self.ev(e.orelse, S))
         if isinstance(e, ast.BinOp) and isinstance(e.op, (ast.Add, ast.Sub)):
             a, b = self.ev(e.left, S), self.ev(e.right, S)
             return a + b if isinstance(e.op, ast.Add) else a - b
@@ -262,11 +320,32 @@ class Compiler:
         return {f'st[{i}]': z3.If(z3.And(idx == i, cond), val, S[f'st[{i}]']) for i in range(self.N)}
 
     def prescan(self, stmts):
-        """statements are compiled back to front, so the names of thread-local lists must be known beforehand"""
-        for st in stmts:
-            for node in ast.walk(st):
-                if isinstance(node, ast.Assign) and len(node.targets) == 1 and isinstance(node.targets[0], ast.Name) and isinstance(node.value, ast.List):
-                    self.lst_declare(self.name(node.targets[0].id))
+        """statements are compiled back to front, so what a name stands for must be known beforehand: thread-local lists, aliases of the
+        source iterator (it = iter(source)), and names that hold a stored exception (sys.exc_info(), its unpacking, `except ... as e`, copies)"""
+        nodes = [node for st in list(stmts) + [b for fd in self.adapters.values() for b in fd.body] for node in ast.walk(st)]
+        for _ in range(3):       # (copies of copies)
+            for node in nodes:
+                if isinstance(node, ast.ExceptHandler) and node.name:
+                    self.p.excvars.add(self.name(node.name))
+                if isinstance(node, ast.AnnAssign) and node.value is not None:
+                    node = ast.Assign(targets=[node.target], value=node.value)
+                if not (isinstance(node, ast.Assign) and len(node.targets) == 1):
+                    continue
+                tg, v = node.targets[0], node.value
+                if isinstance(tg, ast.Name):
+                    if isinstance(v, ast.List):
+                        self.lst_declare(self.name(tg.id))
+                    elif isinstance(v, ast.Call) and ast.unparse(v) == 'sys.exc_info()':
+                        self.p.excvars.add(self.name(tg.id))
+                    elif isinstance(v, ast.Name) and self.name(v.id) in self.p.excvars:
+                        self.p.excvars.add(self.name(tg.id))
+                    elif isinstance(v, ast.Call) and isinstance(v.func, ast.Name) and v.func.id == 'iter' and len(v.args) == 1 \
+                            and isinstance(v.args[0], ast.Name) and self.is_source(v.args[0].id):
+                        self.p.sources.add(self.name(tg.id))
+                elif isinstance(tg, ast.Tuple) and isinstance(v, ast.Name) and self.name(v.id) in self.p.excvars:
+                    for x in tg.elts:
+                        if isinstance(x, ast.Name):
+                            self.p.excvars.add(self.name(x.id))
 
     # ------------------------------------------------------------------ statements
     def block(self, stmts, k, ctx):
@@ -278,8 +357,31 @@ class Compiler:
     def stmt(self, s, k, ctx):
         p, t = self.p, self.t
         L = getattr(s, 'lineno', 0)
-        if isinstance(s, (ast.Pass, ast.Nonlocal, ast.FunctionDef, ast.Import, ast.ImportFrom)):
+        if isinstance(s, (ast.Pass, ast.Nonlocal, ast.Global, ast.FunctionDef, ast.Import, ast.ImportFrom, ast.Delete)):
+            return k        # (del of a local name: object lifetimes are not modelled)
+        if isinstance(s, ast.Expr) and is_noop_call(s.value):
             return k
+        if isinstance(s, ast.AnnAssign):
+            if s.value is None:
+                return k
+            s2 = ast.copy_location(ast.Assign(targets=[s.target], value=s.value), s)
+            return self.stmt(s2, k, ctx)
+        if isinstance(s, ast.Assign) and len(s.targets) == 1 and isinstance(s.targets[0], ast.Attribute) and isinstance(s.targets[0].value, ast.Name) \
+                and self.name(s.targets[0].value.id) in p.threads and s.targets[0].attr in ('daemon', 'name'):
+            return k        # thread.daemon / thread.name: no effect on anything modelled here (interpreter exit is outside)
+        if isinstance(s, ast.Assign) and len(s.targets) == 1 and isinstance(s.targets[0], ast.Tuple) and isinstance(s.value, ast.Name) \
+                and self.name(s.value.id) in p.excvars:
+            # exc_type, exc_value, exc_traceback = exc_info: all three stand for the stored exception kind
+            src = self.name(s.value.id)
+            names = [self.name(x.id) for x in s.targets[0].elts if isinstance(x, ast.Name)]
+            if len(names) != len(s.targets[0].elts):
+                raise Unsupported(ast.unparse(s)[:80])
+            here = p.newloc(t, f'unpack@{L}')
+            for nme in names:
+                self.declare(nme, 'int', NONE)
+                p.excvars.add(nme)
+            p.edge(t, here, k, upd=lambda S: {nme: S[src] for nme in names}, label='unpack exc_info', line=L)
+            return here
         if isinstance(s, ast.Expr) and isinstance(s.value, ast.Constant):
             return k        # docstring
         if isinstance(s, ast.If):
@@ -290,31 +392,32 @@ class Compiler:
             p.edge(t, here, b, guard=lambda S, e=s.test: z3.Not(self.ev(e, S)), label='if-false', line=L)
             return here
         if isinstance(s, ast.While):
-            if s.orelse:
-                raise Unsupported('while-else')
             here = p.newloc(t, f'while@{L}')
+            k_end = self.block(s.orelse, k, ctx) if s.orelse else k      # else: runs when the test fails, not after break
             ctx2 = Ctx(ctx.k_return, lambda: k, ctx.k_raise, ctx.k_return_value, lambda: here)
             body = self.block(s.body, here, ctx2)
-            if isinstance(s.test, ast.Constant) and s.test.value is True:
+            if isinstance(s.test, ast.Constant) and s.test.value in (True, 1):
                 p.edge(t, here, body, label='while-true', line=L)
             else:
                 p.edge(t, here, body, guard=lambda S, e=s.test: self.ev(e, S), label='while-t', line=L)
-                p.edge(t, here, k, guard=lambda S, e=s.test: z3.Not(self.ev(e, S)), label='while-f', line=L)
+                p.edge(t, here, k_end, guard=lambda S, e=s.test: z3.Not(self.ev(e, S)), label='while-f', line=L)
             return here
         if isinstance(s, ast.For):
-            if s.orelse:
-                raise Unsupported('for-else')
-            if not (isinstance(s.iter, ast.Name) and self.params.get(self.name(s.iter.id)) == 'source' and isinstance(s.target, ast.Name)):
+            it = s.iter
+            if isinstance(it, ast.Call) and isinstance(it.func, ast.Name) and it.func.id == 'iter' and len(it.args) == 1 and not it.keywords:
+                it = it.args[0]           # for x in iter(source)
+            if not (isinstance(it, ast.Name) and self.is_source(it.id) and isinstance(s.target, ast.Name)):
                 raise Unsupported('for over ' + ast.unparse(s.iter)[:60])
             here = p.newloc(t, f'for@{L}')
             tgt = self.name(s.target.id)
             self.declare(tgt, 'int', NOITEM)
+            k_end = self.block(s.orelse, k, ctx) if s.orelse else k      # else: runs on exhaustion, not after break
             ctx2 = Ctx(ctx.k_return, lambda: k, ctx.k_raise, ctx.k_return_value, lambda: here)
             body = self.block(s.body, here, ctx2)
             # next(source): item / StopIteration / raises
             p.edge(t, here, body, guard=lambda S: z3.And(S['$pulled'] != S['$fail_at'], S['$pulled'] < S['$n']),
                    upd=lambda S: {tgt: S['$pulled'], '$pulled': S['$pulled'] + 1}, label='next-item', line=L)
-            p.edge(t, here, k, guard=lambda S: z3.And(S['$pulled'] != S['$fail_at'], S['$pulled'] >= S['$n']), label='next-stop', line=L)
+            p.edge(t, here, k_end, guard=lambda S: z3.And(S['$pulled'] != S['$fail_at'], S['$pulled'] >= S['$n']), label='next-stop', line=L)
             for kind in USER_KINDS:
                 p.edge(t, here, ctx.k_raise(kind), guard=lambda S, kind=kind: z3.And(S['$pulled'] == S['$fail_at'], S['$fail_kind'] == kind),
                        upd=lambda S, kind=kind: {'$raised': IV(kind), '$src_failed': z3.BoolVal(True)}, label=f'next-raise-{KNAME[kind]}', line=L)
@@ -337,6 +440,16 @@ class Compiler:
             if len(s.items) != 1:
                 raise Unsupported('with (several items)')
             item = s.items[0]
+            if isinstance(item.context_expr, ast.Call) and ast.unparse(item.context_expr.func) in ('contextlib.suppress', 'suppress') \
+                    and item.optional_vars is None and item.context_expr.args:
+                # with contextlib.suppress(T1, T2): body   ==   try: body / except (T1, T2): pass
+                types = item.context_expr.args
+                typ = types[0] if len(types) == 1 else ast.Tuple(elts=list(types), ctx=ast.Load())
+                h = ast.ExceptHandler(type=typ, name=None, body=[ast.Pass()])
+                tr = ast.Try(body=s.body, handlers=[h], orelse=[], finalbody=[])
+                ast.copy_location(tr, s)
+                ast.fix_missing_locations(tr)
+                return self.try_(tr, k, ctx)
             if not (isinstance(item.context_expr, ast.Call) and ast.unparse(item.context_expr.func) == 'PoolExecutor'
                     and isinstance(item.optional_vars, ast.Name)):
                 raise Unsupported('with ' + ast.unparse(item.context_expr)[:60])
@@ -354,10 +467,18 @@ class Compiler:
                     raise Unsupported('bare raise outside handler')
                 return ctx.k_raise(self.handling[-1])
             src = ast.unparse(s.exc)
-            if src.startswith('exc_info[1]'):
+            # raise <stored exception>: exc_info[1] / exc_info[1].with_traceback(exc_info[2]) / exc_value / exc_value.with_traceback(tb) /
+            # a name bound by `except ... as name` (or copied from one)
+            ex = s.exc
+            if isinstance(ex, ast.Call) and isinstance(ex.func, ast.Attribute) and ex.func.attr == 'with_traceback':
+                ex = ex.func.value
+            if isinstance(ex, ast.Subscript) and isinstance(ex.slice, ast.Constant) and ex.slice.value == 1:
+                ex = ex.value
+            if isinstance(ex, ast.Name) and self.name(ex.id) in p.excvars:
+                var = self.name(ex.id)
                 here = p.newloc(t, f'raise@{L}')
-                for kind in USER_KINDS:
-                    p.edge(t, here, ctx.k_raise(kind), guard=lambda S, kind=kind: S['exc_info'] == kind, label='reraise', line=L)
+                for kind in KNAME:
+                    p.edge(t, here, ctx.k_raise(kind), guard=lambda S, kind=kind: S[var] == kind, label='reraise', line=L)
                 return here
             raise Unsupported('raise ' + src[:60])
         if isinstance(s, ast.Assert):
@@ -478,10 +599,30 @@ class Compiler:
         if isinstance(v, ast.Call) and not (isinstance(v.func, ast.Name) and v.func.id in ('max', 'min')):
             f = v.func
             if src == 'sys.exc_info()':
+                if tgt is None:
+                    return k
                 here = p.newloc(t, f'exc_info@{L}')
                 self.declare(tgt, 'int', NONE)
+                p.excvars.add(tgt)
                 p.edge(t, here, k, upd=lambda S: {tgt: S['$raised']}, label='exc_info', line=L)
                 return here
+            if isinstance(f, ast.Name) and f.id == 'iter' and len(v.args) == 1 and not v.keywords and isinstance(v.args[0], ast.Name) \
+                    and self.is_source(v.args[0].id) and tgt is not None:
+                # it = iter(source): an alias of the source iterator (iter() of an iterator is the iterator; the implicit iter() of the
+                # for loop it replaces is not a step of its own either)
+                p.sources.add(tgt)
+                return k
+            if isinstance(f, ast.Name) and f.id == 'next' and v.args and isinstance(v.args[0], ast.Name) and self.is_source(v.args[0].id) \
+                    and not v.keywords and tgt is not None:
+                if len(v.args) == 1:
+                    # (a fresh location that raises StopIteration; the handler decides where it goes)
+                    stop = p.newloc(t, f'stop@{L}')
+                    p.edge(t, stop, ctx.k_raise(STOPITER), upd=lambda S: {'$raised': IV(STOPITER)}, label='StopIteration', line=L, local=True)
+                    return self.next_source(tgt, k, stop, ctx, L)
+                if len(v.args) == 2 and isinstance(v.args[1], (ast.Constant, ast.Name)):
+                    dflt = p.newloc(t, f'default@{L}')
+                    p.edge(t, dflt, k, upd=lambda S, d=v.args[1]: {tgt: self.ev(d, S)}, label='next-default', line=L, local=True)
+                    return self.next_source(tgt, k, dflt, ctx, L)
             if isinstance(f, ast.Attribute) and isinstance(f.value, ast.Name) and self.name(f.value.id) in p.threads:
                 obj, meth = self.name(f.value.id), f.attr
                 tf = p.threads[obj]
@@ -507,8 +648,12 @@ class Compiler:
             return self.flat_then(v, k, ctx, L, lambda name, k2: k2)
         # plain value
         if tgt is None:
+            if isinstance(v, (ast.Constant, ast.Name)):
+                return k      # an expression statement without effect
             raise Unsupported(src[:60])
         here = p.newloc(t, f'{src[:30]}@{L}')
+        if isinstance(v, ast.Name) and self.name(v.id) in p.excvars:
+            p.excvars.add(tgt)          # err = e: a copy of a stored exception
         if isinstance(v, ast.Constant) and isinstance(v.value, bool):
             self.declare(tgt, 'bool', v.value)
         else:
@@ -594,13 +739,19 @@ class Compiler:
                     raise Unsupported('dill payload without exactly one task argument')
                 return cont(va[0], k)
             if objname in self.p.queues:
-                nb = any(kw.arg == 'block' and getattr(kw.value, 'value', None) is False for kw in e.keywords)
-                # a timed get raises Empty if nothing arrives in time: time is an arbitrary environment quantity, so the
-                # timeout may fire whenever the queue is empty at that step
-                nb = nb or any(kw.arg == 'timeout' for kw in e.keywords) or (meth == 'get' and len(e.args) >= 2)
-                if meth == 'put':
-                    if any(kw.arg in ('timeout', 'block') for kw in e.keywords) or len(e.args) > 1:
-                        raise Unsupported('queue.put with block/timeout')
+                # block / timeout (keyword or positional) must be constants.  block=True, timeout=None is the default blocking call.
+                # A timed get raises Empty if nothing arrives in time: time is an arbitrary environment quantity, so the timeout may
+                # fire whenever the queue is empty at that step (same as a non-blocking get).
+                if meth in ('put', 'get'):
+                    off = 1 if meth == 'put' else 0
+                    blk = const_kw(e, 'block', off, True)
+                    tmo = const_kw(e, 'timeout', off + 1, None)
+                    nb = (not blk) or tmo is not None
+                else:
+                    nb = False
+                if meth in ('put', 'put_nowait'):
+                    if nb or meth == 'put_nowait':
+                        raise Unsupported('queue.put with block=False / timeout (queue.Full is not modelled)')
                     after = cont(None, k)
                     return self.flat_then(e.args[0], None, ctx, L, lambda nm, _k: self._put(objname, nm, after, L))
                 if meth in ('get', 'get_nowait'):
@@ -706,8 +857,6 @@ class Compiler:
 
     # ------------------------------------------------------------------ try / except / finally
     def try_(self, s, k, ctx):
-        if s.orelse:
-            raise Unsupported('try-else')
         fin = s.finalbody
 
         def through_finally(cont_thunk, tag):
@@ -727,6 +876,8 @@ class Compiler:
                 raise Unsupported('return <value> through finally')
             ctx_fin.k_return_value = ctx.k_return_value
         k_norm = through_finally(lambda: k, 'norm')
+        # else: runs after the body finished without an exception; its own exceptions are not seen by the handlers, but by finally
+        k_body_done = self.block(s.orelse, k_norm, ctx_fin) if s.orelse else k_norm
 
         def body_raise(kind):
             for h in s.handlers:
@@ -735,12 +886,21 @@ class Compiler:
                     key = (id(h), 'handler', k_norm, kind, tuple(sorted(self.subst.items())))
                     if key not in self.memo:
                         self.handling.append(kind)
-                        self.memo[key] = self.block(h.body, k_norm, ctx_fin)
+                        entry = self.block(h.body, k_norm, ctx_fin)
+                        if h.name:
+                            # except T as name: the name holds the exception (its kind) inside the handler
+                            nm = self.name(h.name)
+                            self.declare(nm, 'int', NONE)
+                            self.p.excvars.add(nm)
+                            bind = self.p.newloc(self.t, f'except-as@{h.lineno}')
+                            self.p.edge(self.t, bind, entry, upd=lambda S, nm=nm, kind=kind: {nm: IV(kind)}, label=f'{nm}=exc', line=h.lineno, local=True)
+                            entry = bind
+                        self.memo[key] = entry
                         self.handling.pop()
                     return self.memo[key]
             return ctx_fin.k_raise(kind)
         ctx_body = Ctx(ctx_fin.k_return, ctx_fin.k_break, body_raise, ctx_fin.k_return_value, ctx_fin.k_continue)
-        return self.block(s.body, k_norm, ctx_body)
+        return self.block(s.body, k_body_done, ctx_body)
 
 
 def simplify_cfg(prog, entries):
